@@ -210,6 +210,17 @@ impl<'a, O: Clone, V: Visitor<'a, A, O>, A: Acceptor<'a>> iter::Iterator for Ite
 
     fn next(&mut self) -> Option<(&'a A, State<O>)> {
         let acceptor = self.stack.pop()?;
+        #[cfg(qrlew_verif)]
+        crate::verif::visit_step(
+            acceptor,
+            match self.state.get(&acceptor) {
+                Some(State::Push) => "push",
+                Some(State::Visit) => "visit",
+                Some(State::Accept(_)) => "accept",
+                None => "none",
+            },
+            self.stack.len(),
+        );
         match self.state.get(&acceptor)? {
             // Get the status of the current acceptor
             State::Push => {
